@@ -302,6 +302,9 @@ func (x *Exec) store(fr *Frame, st *State, in ssa.Instruction, p *Val, v *Val) {
 	pi := p.Ptr
 	prefix, _ := pathPrefix(pi.Root, pi.Path)
 	var err error
+	if pi.Base == PObj || pi.Base == PElem {
+		v = x.snapshotInteriorPtrs(st, v)
+	}
 	switch pi.Base {
 	case PObj:
 		err = st.storeObj(pi.Root, p.T, prefix, v)
@@ -315,6 +318,47 @@ func (x *Exec) store(fr *Frame, st *State, in ssa.Instruction, p *Val, v *Val) {
 	if err != nil {
 		x.note(err.Error() + " in " + fr.fn.Name())
 	}
+}
+
+// snapshotInteriorPtrs: a pointer into the middle of an object (&x.f) or to an element cannot be stored in
+// the heap model directly. It is replaced by a pointer to a fresh object holding a copy of the pointee's
+// current value. Sound as long as neither the original field nor the copy is written afterwards (true of
+// the read-only configuration objects this occurs for); recorded as an abstraction.
+func (x *Exec) snapshotInteriorPtrs(st *State, v *Val) *Val {
+	switch v.K {
+	case VPtr:
+		if v.Ptr == nil || (v.Ptr.Base == PObj && len(v.Ptr.Path) == 0) || v.Ptr.Base == PGlobal {
+			return v
+		}
+		if v.Ptr.Base == PCell {
+			return v
+		}
+		_, t := pathPrefix(v.Ptr.Root, v.Ptr.Path)
+		cur := x.loadNoCheck(st, v)
+		cur = x.snapshotInteriorPtrs(st, cur)
+		ref := st.alloc()
+		if err := st.storeObj(t, ref, "", cur); err != nil {
+			return v
+		}
+		x.note("interior pointer stored in the heap: modelled as a pointer to a snapshot copy of " + typeString(t))
+		return &Val{K: VPtr, Typ: v.Typ, T: ref, Ptr: &PtrInfo{Base: PObj, Root: t}}
+	case VStruct, VTuple:
+		changed := false
+		fs := make([]*Val, len(v.Fields))
+		for i, f := range v.Fields {
+			fs[i] = x.snapshotInteriorPtrs(st, f)
+			if fs[i] != f {
+				changed = true
+			}
+		}
+		if !changed {
+			return v
+		}
+		c := *v
+		c.Fields = fs
+		return &c
+	}
+	return v
 }
 
 // globalVal: package-level variables are modelled as immutable symbolic constants.
@@ -742,6 +786,16 @@ func (x *Exec) binop(fr *Frame, st *State, v *ssa.BinOp) {
 		case a.K == VOpaque || b.K == VOpaque || a.K == VFunc || b.K == VFunc:
 			x.note("comparison of unmodelled values in " + fr.fn.Name())
 			eq = Const(freshName("cmp"), SBool)
+		case containsBig(a) || containsBig(b):
+			// Go compares the *big.Int pointers inside math.Int / sdk.Dec, not the numbers: equal pointers imply equal
+			// values and two nil pointers are equal; anything else depends on aliasing the model does not track
+			x.note("== / != on a value holding math.Int or sdk.Dec compares pointers: modelled as unknown unless both nil or values differ")
+			e := Const(freshName("bigptreq"), SBool)
+			st.Assume(Implies(e, valEq(a, b)))
+			if a.K == VBig && b.K == VBig {
+				st.Assume(Implies(And(a.Nil, b.Nil), e))
+			}
+			eq = e
 		default:
 			eq = valEq(a, b)
 		}
@@ -1103,6 +1157,23 @@ func (x *Exec) sliceOp(fr *Frame, st *State, v *ssa.Slice) {
 	fr.regs[v] = &Val{K: VSlice, Typ: v.Type(), T: s.T, Off: Add(s.Off, lo), Len: Sub(hi, lo)}
 }
 
+func containsBig(v *Val) bool {
+	if v == nil {
+		return false
+	}
+	if v.K == VBig {
+		return true
+	}
+	if v.K == VStruct {
+		for _, f := range v.Fields {
+			if containsBig(f) {
+				return true
+			}
+		}
+	}
+	return false
+}
+
 func arrayOfPtr(t types.Type) *types.Array {
 	if p, ok := types.Unalias(t).Underlying().(*types.Pointer); ok {
 		if a, ok := types.Unalias(p.Elem()).Underlying().(*types.Array); ok {
@@ -1129,6 +1200,8 @@ func (x *Exec) appendOne(st *State, s *Val, e *Val) *Val {
 			c := Const(freshName("shift"), old.Sort)
 			j := Bound("j", SInt)
 			st.Assume(Forall([]*Term{j}, Implies(And(Ge(j, Num(0)), Lt(j, s.Len)), Eq(Select(c, j), Select(old, ElemIdx(s.Off, j)))), []*Term{Select(c, j)}))
+			// the new backing array is unconstrained beyond the copied elements: with offset 0 it may be taken equal to the old row
+			st.Assume(Implies(Eq(s.Off, Num(0)), Eq(c, old)))
 			content = c
 		}
 		if ls[i] == nil {
